@@ -20,6 +20,51 @@ def _erase_primitive(n, env, fn, st):
     return None
 
 
+def collapse_before_erase(F, counter_of=None):
+    """(fn, call node, container leaf name, ok) for every GenerateIndexCollapseMap(I, N) whose N is the size / counter of a
+    container the same function erases from"""
+    out = []
+    counter_leaf = {}
+    for arr, cnt in (counter_of or {}).items():
+        counter_leaf.setdefault(cnt.split(".")[-1], set()).add(arr.split(".")[-1].replace("[*]", ""))
+    for fn in sorted(F.fns.values(), key=lambda f: f["id"]):
+        if fn.get("tmpl") == "pattern":
+            continue
+        maps = [n for n in walk(fn.get("body") or {}) if n["k"] == "Call" and (n.get("short") or "").startswith("GenerateIndexCollapseMap")
+                and len(n.get("args", [])) == 2]
+        if not maps:
+            continue
+        ids = {id(n) for n in maps}
+
+        class E(flow.Collect):
+            def on_node(self, n, st):
+                st = flow.Collect.on_node(self, n, st)
+                if st is not None and n["k"] == "Call" and (n.get("short") or "").startswith("EraseVectorIndices") and n.get("args"):
+                    a = n["args"][0]
+                    leaf = show(a).split(".")[-1].split("->")[-1]
+                    return st | {("D", "erased:" + leaf)}
+                return st
+
+        col = E(F, fn, lambda n: id(n) in ids)
+        col.run()
+        erased_any = set(show(x["args"][0]).split(".")[-1] for x in walk(fn["body"])
+                         if x["k"] == "Call" and (x.get("short") or "").startswith("EraseVectorIndices") and x.get("args"))
+        for n, sts in col.by_node():
+            size_expr = show(n["args"][1])
+            conts = set()
+            for leaf in erased_any:
+                if ("%s.size()" % leaf) in size_expr:
+                    conts.add(leaf)
+            for cnt, arrs in counter_leaf.items():
+                import re
+                if re.search(r"\b%s\b" % re.escape(cnt), size_expr):
+                    conts |= (arrs & erased_any)
+            for c in sorted(conts):
+                ok = all(st is None or ("D", "erased:" + c) not in st for st in sts)
+                out.append((fn, n, c, ok))
+    return out
+
+
 def run(F, chk):
     R1 = chk.rule("R9.1", "every member array that a class's Sync sizes to its vertex count is erased (EraseVectorIndices) by the "
                           "class's notifyVerticesDelete or a base implementation it calls")
@@ -206,6 +251,19 @@ def run(F, chk):
                               "%s erases arrays counted by `%s` but can return without re-deriving that counter from an array size: "
                               "the count written on save disagrees with the arrays" % (fn["name"], cn))
     chk.floor(R4, 4)
+
+    # ---------------------------------------------------------------- R9.5
+    R5 = chk.rule("R9.5", "an index-collapse map sized by a container's element count is generated before that container is erased "
+                          "(the map must cover the old indices)")
+    for fn, n, cont, ok in collapse_before_erase(F, counter_of):
+        if cont == "partitions":
+            continue  # reported under C10
+        chk.instance(R5, ok=ok, sample={"fn": fn["name"], "map_sized_by": cont})
+        if not ok:
+            chk.violation("R9.5", "C09/R9.5:%s:%s" % (fn["name"], cont), where(fn, n),
+                          "%s builds its index-collapse map from the size of `%s` after erasing from it: the map is too short and "
+                          "indices at or above the new size are left unmapped" % (fn["name"], cont))
+    chk.floor(R5, 1)
 
     chk.assumptions += ["order preservation inside EraseVectorIndices, triangle re-indexing and partition re-fitting are value-level (C18-style) and not decided"]
     chk.extra["explanation"] = ("coverage of every per-vertex array by the deletion notification, override chain, orchestrator "
